@@ -180,6 +180,11 @@ class _Beam(_IModel):
         assert np.abs(Iyz) <= 1e-9, "The section must have at least 1 symetry axis."
         self.Need_Update()
         self.__section: "Mesh" = section
+        if "_ky" in self.__dict__:
+            # a new section after construction: the shear correction factors follow it
+            # (set _ky / _kz again afterwards to use other values)
+            self._ky = self._Get_shear_correction_factor("y")
+            self._kz = self._Get_shear_correction_factor("z")
 
     @property
     def xAxis(self) -> _types.FloatArray:
